@@ -75,8 +75,10 @@ theorem processDepositsForPool_grow (env : Env) (k : PoolKey) (s : State) (deps 
   split at h
   · cases h
   · cases h
-  · obtain ⟨coins, _, h2⟩ := Outcome.bind_eq_ok h
-    cases h2; exact PoolsGrow.of_set _ _ rfl
+  · split at h
+    · cases h; exact PoolsGrow.refl s
+    · obtain ⟨coins, _, h2⟩ := Outcome.bind_eq_ok h
+      cases h2; exact PoolsGrow.of_set _ _ rfl
 
 theorem processDeposits_grow (env : Env) (s s' : State) (h : processDeposits env s = .ok s') :
     PoolsGrow s s' := by
